@@ -229,6 +229,19 @@ def run(ctx):
   is_macro_test = lambda e: bool(_re.fullmatch(r'(_REGISTRY\[.+\]\.wrapped==macro|macro==_REGISTRY\[.+\]\.wrapped)', u(e).replace(' ', '')))
   mac = [n for n in walk_local(cs.node) if isinstance(n, ast.If) and is_macro_test(n.test)]
   mac += [n for n in walk_local(cs.node) if isinstance(n, ast.comprehension) and any(is_macro_test(i) for i in n.ifs)]
+  if not mac:
+    # by the facts: an entry is stored / appended inside a loop exactly where the macro test is known to hold
+    for n in g3.live_nodes():
+      if n.ast is not None and n.kind == 'stmt' and n.loops and (
+          (isinstance(n.ast, ast.Assign) and isinstance(n.ast.targets[0], ast.Subscript)) or
+          (isinstance(n.ast, ast.Expr) and isinstance(n.ast.value, ast.Call) and isinstance(n.ast.value.func, ast.Attribute) and n.ast.value.func.attr == 'append')):
+        for f_ in facts3[n.id]:
+          if f_[0] == 'c' and f_[2] is True:
+            try:
+              if is_macro_test(ast.parse(f_[1], mode='eval').body):
+                mac.append(n)
+            except SyntaxError:
+              pass
   ctx.check(bool(mac), 'C07.sections', construct(cs), 'macro entries are collected for the macro block', 'macro entries are no longer collected into the macro block',
             cs.loc(), instance='macros')
   # constant-key subscripts on record entries
